@@ -591,7 +591,9 @@ def shape_source(case):
             top += ["@guppy.pytket(C0)", f"def f0({', '.join(args)}) -> {ret}: ..."]
             top += ["@guppy", "def main() -> None:", "    pass"]
             return HEADER + "\n" + "\n".join(top) + "\n", "f0"
-        args = [f"q{j}: qubit" for j in range(q)] + [f"p{j}: angle" for j in range(p)]
+        own = sh.get("own")  # this qubit is declared @owned: same types, different ownership -> mismatch
+        args = [f"q{j}: qubit" + (" @owned" if own is not None and j == own % q else "") for j in range(q)]
+        args += [f"p{j}: angle" for j in range(p)]
         top += ["@guppy.pytket(C0)", f"def f0({', '.join(args)}) -> {ret_annotation(b)}: ..."]
         v = [f"k{i}" for i in range(q)]
         body = [f"{x} = qubit()" for x in v]
@@ -599,7 +601,7 @@ def shape_source(case):
         outs = [f"o{i}" for i in range(b)]
         body.append(f"{', '.join(outs)} = {call}" if outs else call)
         body += [f'result("o{i}", o{i})' for i in range(b)]
-        body += [f"discard({x})" for x in v]
+        body += [f"discard({x})" for j, x in enumerate(v) if own is None or j != own % q]
     elif what == "call_flat":
         top.append('f0 = guppy.load_pytket("f0", C0, use_arrays=False)')
         q, p, b = n + dq, ns + dp, nb + db
@@ -647,7 +649,7 @@ def shape_source(case):
 
 def shape_expected_ok(case):
     sh = case["shape"]
-    return not (sh.get("dq") or sh.get("dp") or sh.get("db") or sh.get("arrays"))
+    return not (sh.get("dq") or sh.get("dp") or sh.get("db") or sh.get("arrays") or sh.get("own") is not None)
 
 
 def shape_kind(case):
@@ -656,6 +658,8 @@ def shape_kind(case):
         return sh["what"] + ":exact"
     if sh.get("arrays"):
         return "stub:arrays"
+    if sh.get("own") is not None:
+        return "stub:owned_qubit"
     return sh["what"] + ":" + "+".join(f"{k}{sh[k]:+d}" for k in ("dq", "dp", "db") if sh.get(k))
 
 
@@ -905,6 +909,8 @@ def strategies():
             pass  # exact shape
         elif what == "stub" and c == 1:
             sh["arrays"] = True
+        elif what == "stub" and c in (2, 3) and n >= 1:
+            sh["own"] = draw(st.integers(0, 3))
         else:
             opts = ["dq+"] + (["dq-"] if n > 1 or what != "call_arrays" else []) + ["dp+"] + (["dp-"] if ns else [])
             if what != "call_arrays" or circ["cregs"]:
